@@ -497,7 +497,22 @@ namespace
             g_life.born(this, tag);
             for (size_t i = 0; i < N; i++) raw[i] = pat((uint64_t)tag, i);
         }
-        ~Elem() { g_life.died(this); }
+        ~Elem()
+        {
+            // the destructor looks at the object it is destroying (a canary check, an unlink from a list ...): its bytes must
+            // still be the ones the constructor wrote
+            auto it = g_life.live.find(this);
+            if (it != g_life.live.end())
+                for (size_t i = 0; i < N; i++)
+                    if (raw[i] != pat((uint64_t)it->second, i))
+                    {
+                        char msg[160];
+                        snprintf(msg, sizeof msg, "byte %zu of a %zu-byte object had been overwritten when its destructor ran", i, N);
+                        kit::defer_violation("C10/object-clobbered-before-destructor", "%s", msg);
+                        break;
+                    }
+            g_life.died(this);
+        }
     };
 
     template <class T, size_t Cap> void run_sop(const Plan &p, Trace &tr, Result &res)
@@ -526,6 +541,7 @@ namespace
         int tagc = 0;
         bool exhausted = false, refilled = false;
         auto check = [&](const char *when) {
+            check_deferred();
             if (pool->avail() != Cap - live.size())
                 violate("C10/pool-avail@static_object_pool", "%s: avail()=%zu, capacity %zu minus %zu live objects (element %zu bytes, slot %zu bytes)", when, pool->avail(), (size_t)Cap,
                         live.size(), sizeof(T), slot);
@@ -607,7 +623,12 @@ namespace
         int tag;
         unsigned char raw[12];
         Nested(void *pool, int depth, int *tagc);
-        ~Nested() { g_life.died(this); }
+        ~Nested()
+        {
+            for (size_t i = 0; i < sizeof raw; i++)
+                if (raw[i] != pat((uint64_t)tag, i)) { kit::defer_violation("C10/object-clobbered-before-destructor", "%s", "a chain node had been overwritten when its destructor ran"); break; }
+            g_life.died(this);
+        }
     };
     typedef igris::static_object_pool<Nested, 6> NestedPool;
     Nested::Nested(void *pool, int depth, int *tagc) : tag(++*tagc)
@@ -637,6 +658,7 @@ namespace
             }
         };
         auto check = [&](const char *when) {
+            check_deferred();
             if (pool->avail() != Cap - live.size()) violate("C10/pool-avail@static_object_pool", "%s: avail()=%zu, capacity %zu minus %zu live objects (nested create)", when, pool->avail(), Cap, live.size());
             if (g_life.live.size() != live.size()) violate("C10/object-lifetime", "%s: %zu objects alive, %zu known to the clients (nested create)", when, g_life.live.size(), live.size());
             if (live.size() > Cap) violate("C10/pool-over-capacity@static_object_pool", "%s: %zu live objects in a pool of %zu", when, live.size(), Cap);
